@@ -337,6 +337,9 @@ def _shared(ctx, rep, tier):
     from .shared import delegate
     delegate(ctx, rep, tier, "C03", ("C03.f", "C03.c", "C03.n"), "C12.i", "heap modes initialise a string exactly once in start(): default copied, or allocated / NULLed, split on 'has a default'",
              where="CodegenCtx._generate_start_implementation", pred=lambda v: "start" in v.function)
+    delegate(ctx, rep, tier, "C03", ("C03.e", "C03.f"), "C12.l", "string storage options only add or drop allocation events that every template agrees on: wherever one template can leave a "
+             "heap string's pointer NULL (delete that frees, on-demand start) every template that writes it allocates first, and every allocation has the full declared size",
+             where="CodegenCtx._generate_action_implementation", pred=lambda v: "start" not in v.function)
     rep.rule("C12.j", "an indexed string read yields the byte value in every element-type mode: the element is read through a uint8_t cast (plain char may be signed)")
     fp = ctx.emit.enumerate("CodegenCtx._generate_code_for_int_expr", classes={"intexpr": "StringRefIntegerExpr"})
     n = 0
